@@ -54,7 +54,6 @@ package xmpp
 // was <success/>.
 //@ func negotiateClient
 //@   noswallow[C04]
-//@   requires typeof(data) == []string
 //@   ghost lastMore bool = true
 //@   ghost sawSuccess bool = false
 //@   callsite (*mellium.im/sasl.Negotiator).Step#1
@@ -77,7 +76,7 @@ package xmpp
 //@   callsite mellium.im/sasl.Credentials#1
 //@     assert[C03] selected.Name != ""
 //@     assert[C03] exists i int :: 0 <= i && i < len(mechanisms) && mechanisms[i].Name == selected.Name
-//@     assert[C03] exists j int :: 0 <= j && j < len(data.([]string)) && data.([]string)[j] == selected.Name
+//@     assert[C03] exists j int :: 0 <= j && j < len(remote) && remote[j] == selected.Name
 //@   callsite mellium.im/sasl.NewClient#1
 //@     assert[C03] arg0 == selected
 
